@@ -115,6 +115,9 @@ class ChainNode(Entity):
         # Highest write sequence applied here per key: the network may reorder
         # Propagate messages, and an older write must never overwrite a newer one.
         self._applied_seq: dict[str, int] = {}
+        # Highest write sequence known to be committed at the tail per key. A key
+        # is clean only when the newest version applied here is committed.
+        self._committed_seq: dict[str, int] = {}
 
         # Pending write futures (HEAD: seq -> SimFuture)
         self._pending_writes: dict[int, SimFuture] = {}
@@ -209,6 +212,7 @@ class ChainNode(Entity):
 
         # Apply locally
         yield from self._store.put(key, value)
+        self._applied_seq[key] = max(self._applied_seq.get(key, 0), seq)
 
         # Mark dirty for CRAQ
         if self._craq_enabled:
@@ -234,12 +238,10 @@ class ChainNode(Entity):
 
             # Clean up
             self._pending_writes.pop(seq, None)
-            if self._craq_enabled:
-                self._dirty_keys.discard(key)
+            self._mark_committed(key, seq)
         else:
             # Single-node chain (HEAD is also TAIL)
-            if self._craq_enabled:
-                self._dirty_keys.discard(key)
+            self._mark_committed(key, seq)
 
         if reply_future is not None:
             reply_future.resolve({"status": "ok", "seq": seq})
@@ -266,7 +268,7 @@ class ChainNode(Entity):
             # Apply locally
             self._applied_seq[key] = seq
             yield from self._store.put(key, value)
-            if self._craq_enabled:
+            if self._craq_enabled and seq > self._committed_seq.get(key, 0):
                 self._dirty_keys.add(key)
 
         if self._role == ChainNodeRole.TAIL:
@@ -284,7 +286,7 @@ class ChainNode(Entity):
 
             # CRAQ: key is now clean, notify chain
             if self._craq_enabled:
-                self._dirty_keys.discard(key)
+                self._mark_committed(key, seq)
                 # Notify upstream nodes that key is committed
                 events = self._build_commit_notifications(key, seq)
                 if events:
@@ -317,6 +319,17 @@ class ChainNode(Entity):
         metadata = event.context.get("metadata", {})
         key = metadata.get("key")
         if key and self._craq_enabled:
+            self._mark_committed(key, metadata.get("seq", 0))
+
+    def _mark_committed(self, key: str, seq: int) -> None:
+        """Record that the tail committed ``seq`` for ``key``.
+
+        The key becomes clean only if no newer write of it has been applied
+        here: an earlier write's commit must not hide a later in-flight write.
+        """
+        if seq > self._committed_seq.get(key, 0):
+            self._committed_seq[key] = seq
+        if self._craq_enabled and self._committed_seq.get(key, 0) >= self._applied_seq.get(key, 0):
             self._dirty_keys.discard(key)
 
     def _handle_read(
